@@ -56,6 +56,8 @@ def bind(prog, inp, prefix="k"):
             if node and node[0] == "rot":
                 n = fresh("n", 0, 255) if node[3] == "k" else node[3]
                 return ["rot", node[1], node[2], n, node[4]]
+            if node and node[0] == "tpl":
+                return node
             return [b(x, role) for x in node]
         return node
 
@@ -72,6 +74,7 @@ class RefInterp:
         self.outcomes = list(outcomes)
         self.alive: Dict[str, bool] = {}
         self.newcount = 0
+        self.tvals: Dict[str, Any] = {}
 
     def val(self, h, scope):
         k = h[0]
@@ -157,8 +160,13 @@ class RefInterp:
             self.events.append(("init", st[1]))
         elif k == "g":
             self.events.append((GATES[st[2]], st[1]))
+        elif k in ("cnot", "cphase"):
+            self.events.append((k, st[1], st[2]))
         elif k == "rot":
-            self.events.append(("rot_" + st[2].lower(), st[1], st[3], st[4]))
+            n = st[3]
+            if isinstance(n, list):
+                n = self.tvals[n[1]]
+            self.events.append(("rot_" + st[2].lower(), st[1], n, st[4]))
         elif k == "m":
             if not self.outcomes:
                 raise Unspecified("outcome script exhausted")
@@ -192,6 +200,8 @@ class SdkInterp:
         self.regs: Dict[str, Any] = {}
         self.qubits: Dict[str, Any] = {}
         self.qids: Dict[str, int] = {}
+        self.tmode = "template"          # how ["tpl", name] numerators are passed: as Template or as their value
+        self.tvals: Dict[str, Any] = {}
 
     def h(self, h, scope):
         k = h[0]
@@ -274,8 +284,14 @@ class SdkInterp:
             self.qids[st[1]] = q.qubit_id
         elif k == "g":
             getattr(self.qubits[st[1]], st[2])()
+        elif k in ("cnot", "cphase"):
+            getattr(self.qubits[st[1]], k)(self.qubits[st[2]])
         elif k == "rot":
-            getattr(self.qubits[st[1]], "rot_" + st[2])(n=st[3], d=st[4])
+            n = st[3]
+            if isinstance(n, list):
+                from netqasm.lang.operand import Template
+                n = Template(n[1]) if self.tmode == "template" else self.tvals[n[1]]
+            getattr(self.qubits[st[1]], "rot_" + st[2])(n=n, d=st[4])
         elif k == "m":
             q = self.qubits[st[1]]
             dest, inplace = st[2], st[3]
